@@ -29,6 +29,11 @@ def listing(found):
 def flag_args(flag, names, rnd):
     if not names:
         return []
+    # the flag values are a multiset on the command line: a name may be given more than once
+    # (repeated flag, or twice in one value); the statement speaks of the set
+    names = list(names)
+    if rnd.randrange(3) == 0:
+        names.insert(rnd.randrange(len(names) + 1), rnd.choice(names))
     style = rnd.randrange(4)
     if style == 0:
         return [a for n in names for a in (flag, n)]
